@@ -151,7 +151,16 @@ def _worker(args):
     import importlib
 
     mod = importlib.import_module(fn_mod)
-    return getattr(mod, fn_name)(payload)
+    try:
+        return getattr(mod, fn_name)(payload)
+    except Exception as e:  # noqa
+        # the comparison itself could not be carried out (the code under test handed the harness something it cannot
+        # even decode): the correspondence of this batch is broken; reported as such, never as a crash of the check
+        import traceback
+
+        return {"ops": 0, "corr": [{"layer": "harness", "kind": "harness-exception", "where": f"{fn_mod}.{fn_name}",
+                                    "detail": (type(e).__name__ + ": " + str(e))[:300], "trace": traceback.format_exc()[-1200:]}],
+                "viol": [], "samples": [], "hist": {}, "oracles": {}, "known": {}}
 
 
 def parallel(fn_mod, fn_name, payloads, procs=None):
